@@ -321,6 +321,8 @@ def fm_cases(draw):
     angle = kind >= 2 and (draw(st.integers(0, 3)) > 0)
     dihedral = kind == 3 and (draw(st.integers(0, 3)) > 0)
     two_types = kind == 0 and draw(st.integers(0, 3)) == 0
+    if two_types:
+        nside = 4
     seed = draw(st.integers(0, 10 ** 6))
     spec = dict(
         nb=dict(nint=draw(st.integers(4, 24)), step=draw(st.sampled_from([10, 20, 25, 40, 50])), vals=[draw(KNOTVAL) for _ in range(3 * 25)]),
@@ -364,13 +366,21 @@ def build_fm(case, ctx):
         do_nb = True
     a = [0.5, 0.7, 0.9, 1.1][kind]
     L = round(nside * a, 5)
-    # bonded grids (integers are 1e-3 units)
-    bk = sp["bond"]["lo"] / 1000.0 + np.arange(sp["bond"]["nint"] + 1) * sp["bond"]["step"] / 1000.0
-    ak = sp["angle"]["lo"] / 1000.0 + np.arange(sp["angle"]["nint"] + 1) * sp["angle"]["step"] / 1000.0
-    ak = ak[ak <= 2.95]
-    dk = sp["dihedral"]["lo"] / 1000.0 + np.arange(sp["dihedral"]["nint"] + 1) * sp["dihedral"]["step"] / 1000.0
-    dk = dk[dk <= 2.9]
-    if len(ak) < 4 or len(dk) < 4:
+    # bonded grids (integers are 1e-3 units); the number of intervals is limited so that the stratified samples of ONE block
+    # put >= 8 values into every interval
+    fpb = {"1": 1, "2": min(2, nfr), "all": nfr}[case["fpb"]]
+
+    def grid(spc, per_frame, hi_lim=None):
+        nint = min(spc["nint"], (per_frame * fpb) // 9)
+        k = spc["lo"] / 1000.0 + np.arange(nint + 1) * spc["step"] / 1000.0
+        if hi_lim is not None:
+            k = k[k <= hi_lim]
+        return np.round(k, 6)
+
+    bk = grid(sp["bond"], nmol * max(1, nbm - 1))
+    ak = grid(sp["angle"], nmol * max(1, nbm - 2), 2.95)
+    dk = grid(sp["dihedral"], nmol, 2.9)
+    if len(bk) < 4 or len(ak) < 4 or len(dk) < 4:
         return None
 
     def strat(lo, hi, n):  # stratified uniform sample of (lo,hi), shuffled
@@ -443,15 +453,28 @@ def build_fm(case, ctx):
         lo = math.floor(rlo * 100 - 1) / 100.0
         if lo < 0.05:
             return None
-        step = sp["nb"]["step"] / 1000.0
-        nint = sp["nb"]["nint"]
-        while nint >= 4 and lo + nint * step > L / 2 - 0.011:
-            nint -= 1
-        if nint < 4:
-            return None
-        knots = np.round(lo + np.arange(nint + 1) * step, 6)
-        cut = knots[-1]
         combos = [("A", "A")] if not case["two_types"] else [("A", "A"), ("A", "B"), ("B", "B")]
+        sels = [((types[iu] == ta) & (types[ju] == tb)) | ((types[iu] == tb) & (types[ju] == ta)) for ta, tb in combos]
+        knots = None
+        for stp in [v for v in (sp["nb"]["step"], 25, 40, 50, 80, 100, 150, 200) if v >= sp["nb"]["step"]]:
+            step = stp / 1000.0
+            nint = min(sp["nb"]["nint"], int((L / 2 - 0.011 - lo) / step + 1e-9))
+            if nint < 3:
+                break
+            kn = np.round(lo + np.arange(nint + 1) * step, 6)
+            ok = True
+            for sel in sels:
+                for b0 in range(0, nfr - fpb + 1, fpb):
+                    dd = np.concatenate([pair_d[fr][1][sel] for fr in range(b0, b0 + fpb)])
+                    cnt = np.histogram(dd, bins=kn)[0]
+                    if cnt.min() < 8:
+                        ok = False
+            if ok:
+                knots = kn
+                break
+        if knots is None:
+            return None
+        cut = knots[-1]
         for ci, (ta, tb) in enumerate(combos):
             it = Inter(f"{ta}-{tb}", "nb", knots, sp["nb"]["vals"][ci * 25:ci * 25 + len(knots)], tag=(ta, tb))
             sel = ((types[iu] == ta) & (types[ju] == tb)) | ((types[iu] == tb) & (types[ju] == ta))
@@ -625,7 +648,7 @@ def run_fm(case, ctx, d):
             r.discard = True
             return r
         sol, cond = res
-        if not np.isfinite(cond) or cond > 1e8:
+        if not np.isfinite(cond) or cond > 1e10:
             r.discard = True
             return r
         for it, c in zip(S["inters"], sol):
@@ -645,7 +668,7 @@ def run_fm(case, ctx, d):
         r.cls("two-bead-types")
     if S["excl_note"]:
         r.cls(S["excl_note"])
-    r.cls("cond<1e3" if cond < 1e3 else "cond<1e5" if cond < 1e5 else "cond<1e8")
+    r.cls("cond<1e4" if cond < 1e4 else "cond<1e7" if cond < 1e7 else "cond<1e10")
     r.nontrivial = any(k != "nb" for k in kinds)
     write_fm_inputs(S, case, d)
     rcode, out = ctx.sh(["csg_fmatch", "--top", "top.xml", "--trj", "traj.dlph", "--options", "fm.xml", "--no-map"], cwd=d, timeout=600)
